@@ -1,0 +1,185 @@
+//! Verification hook H4 (compiled only with `--cfg salsa_rs_salsa_verif`): lifetime events.
+//!
+//! Observation only.  Every call site is an added line next to the operation it reports.  While
+//! recording is enabled (`enable(true)`, off by default so that other harnesses pay one relaxed
+//! load per site), each event is appended as one text line to a global
+//! `std::sync::Mutex<Vec<String>>`; `verif_take_life_trace()` drains it.  `std` primitives only
+//! (never shuttle's), so emitting is not a scheduling point.
+//!
+//! Memo allocations are identified by small integers: the hook maps the allocation's address to a
+//! fresh index at `alloc` and forgets the address at `free`, so that an address recycled by the
+//! allocator gets a new index.  Raw addresses never appear in the output.  An address that was
+//! never announced by `alloc` is printed as a fresh index with an `unknown` line in front.
+//!
+//! Line formats (all numbers decimal; S = `Id::index()`, G = `Id::generation()`, F = memo
+//! ingredient index, M = memo index, R = revision):
+//!
+//! ```text
+//! alloc M S F V        insert_memo: Box::leak'ed memo M for slot S, function F, has_value V
+//! retire M             insert_memo: the previous memo of that entry pushed to `deleted_entries`
+//! free M W             the memo's Box is reconstituted and dropped; W = 0 `SharedBox::drop`
+//!                      (deleted_entries.clear() / ingredient drop), 1 `MemoEntry::take`
+//!                      (clear_memos of a tracked / interned slot, Page::drop)
+//! evict M              evict_value_from_memo_for: `memo.value = None` under `&mut`
+//! handout M S F        IngredientImpl::fetch returns `&'db` into memo M
+//! fhandout K S         a field getter returns `&'db` into the fields of slot S
+//!                      (K = 0 input, 1 tracked struct, 2 interned)
+//! ppush P I            Table::push_page: page P for ingredient I
+//! snew K S I           a fresh slot was allocated (K as above, I = ingredient)
+//! sset S               input::set_field (under `&mut`)
+//! supdate S G C        tracked_struct::update took the write lock; C = identity fields changed
+//! sdelete S G          tracked_struct::delete_entity took the write lock
+//! sfree S G            ... and pushed the id onto the free list
+//! sreuse S G N         tracked_struct::allocate popped (S, G) from the free list; N = new
+//!                      generation or -1 (slot leaked)
+//! iq I R N             interned ingredient I (REVISIONS = N): `revision_queue.record(R)` at the
+//!                      start of intern_id / maybe_changed_after
+//! ihit S G L U         intern_id fast path: stamp L (last_interned_at) and reusable U afterwards
+//! inew S L U I         intern_id_cold allocated slot S
+//! ireuse S G N L U     intern_id reused slot (S, G) as generation N
+//! imca S G C L         interned maybe_changed_after on (S, G): C = changed, L stamp afterwards
+//! newrev R / newrev_end        Zalsa::new_revision (R = the new revision)
+//! evictlru / evictlru_end      Zalsa::evict_lru
+//! zdrop_begin / zdrop_end      the `Zalsa` is dropped (before its first / after its last field)
+//! ```
+
+use std::collections::HashMap;
+use std::sync::Mutex;
+use std::sync::atomic::{AtomicBool, Ordering};
+
+static ENABLED: AtomicBool = AtomicBool::new(false);
+
+struct Recorder {
+    trace: Vec<String>,
+    memo_ids: Option<HashMap<usize, u64>>,
+    next_memo: u64,
+}
+
+static RECORDER: Mutex<Recorder> = Mutex::new(Recorder {
+    trace: Vec::new(),
+    memo_ids: None,
+    next_memo: 0,
+});
+
+fn recorder() -> std::sync::MutexGuard<'static, Recorder> {
+    RECORDER.lock().unwrap_or_else(|e| e.into_inner())
+}
+
+/// Start / stop recording.  Starting resets the memo numbering and clears the trace.
+pub fn enable(on: bool) {
+    let mut r = recorder();
+    if on {
+        r.trace = Vec::new();
+        r.memo_ids = Some(HashMap::new());
+        r.next_memo = 0;
+    }
+    ENABLED.store(on, Ordering::SeqCst);
+}
+
+/// Drain the recorded lines.
+pub fn verif_take_life_trace() -> Vec<String> {
+    std::mem::take(&mut recorder().trace)
+}
+
+/// Forget the address table as well (it owns heap memory); recording must be off.
+pub fn reset() {
+    let mut r = recorder();
+    r.trace = Vec::new();
+    r.memo_ids = None;
+    r.next_memo = 0;
+}
+
+/// Append a line on behalf of the harness (prefixed with `h `).
+pub fn note(line: &str) {
+    if ENABLED.load(Ordering::Relaxed) {
+        recorder().trace.push(format!("h {line}"));
+    }
+}
+
+#[inline]
+pub(crate) fn on() -> bool {
+    ENABLED.load(Ordering::Relaxed)
+}
+
+#[inline]
+pub(crate) fn emit(line: impl FnOnce() -> String) {
+    if on() {
+        let line = line();
+        recorder().trace.push(line);
+    }
+}
+
+fn lookup(r: &mut Recorder, addr: usize) -> u64 {
+    let known = r.memo_ids.as_ref().and_then(|m| m.get(&addr).copied());
+    match known {
+        Some(m) => m,
+        None => {
+            let m = r.next_memo;
+            r.next_memo += 1;
+            r.memo_ids.get_or_insert_with(HashMap::new).insert(addr, m);
+            r.trace.push(format!("unknown {m}"));
+            m
+        }
+    }
+}
+
+/// `insert_memo`: a new memo allocation.
+pub(crate) fn memo_alloc(addr: usize, slot: u32, function: usize, has_value: bool) {
+    if !on() {
+        return;
+    }
+    let mut r = recorder();
+    let m = r.next_memo;
+    r.next_memo += 1;
+    r.memo_ids.get_or_insert_with(HashMap::new).insert(addr, m);
+    r.trace
+        .push(format!("alloc {m} {slot} {function} {}", has_value as u8));
+}
+
+pub(crate) fn memo_retire(addr: usize) {
+    if !on() {
+        return;
+    }
+    let mut r = recorder();
+    let m = lookup(&mut r, addr);
+    r.trace.push(format!("retire {m}"));
+}
+
+pub(crate) fn memo_free(addr: usize, site: u8) {
+    if !on() {
+        return;
+    }
+    let mut r = recorder();
+    let m = lookup(&mut r, addr);
+    if let Some(ids) = r.memo_ids.as_mut() {
+        ids.remove(&addr);
+    }
+    r.trace.push(format!("free {m} {site}"));
+}
+
+pub(crate) fn memo_evict(addr: usize) {
+    if !on() {
+        return;
+    }
+    let mut r = recorder();
+    let m = lookup(&mut r, addr);
+    r.trace.push(format!("evict {m}"));
+}
+
+pub(crate) fn memo_handout(addr: usize, slot: u32, function: usize) {
+    if !on() {
+        return;
+    }
+    let mut r = recorder();
+    let m = lookup(&mut r, addr);
+    r.trace.push(format!("handout {m} {slot} {function}"));
+}
+
+/// Emits `zdrop_end` when dropped: the last field of `Zalsa`.
+pub(crate) struct ZalsaDropEnd;
+
+impl Drop for ZalsaDropEnd {
+    fn drop(&mut self) {
+        emit(|| String::from("zdrop_end"));
+    }
+}
